@@ -306,7 +306,7 @@ def _is_allowed_peripheral(func_current, peripheral_previous, mfl_funcs):
     if not n_prev:
         return n == min(n_all)
     n_index = n_all.index(n)
-    return n_index > 0 and n_all[n_index - 1] < n
+    return n_index > 0 and n_all[n_index - 1] < n and n_all[n_index - 1] == max(n_prev)
 
 
 def _update_name_and_description(name, features, me):
